@@ -1,6 +1,7 @@
 package rules
 
 import (
+	"go/types"
 	"strings"
 
 	"golang.org/x/tools/go/ssa"
@@ -71,6 +72,55 @@ func droppedErrors(c *Check, fn *ssa.Function, extraExempt func(name string) boo
 	if engine.ErrResultIndex(fn.Signature) < 0 {
 		return nil
 	}
+	return droppedErrorsTo(c, fn, extraExempt, successReturn, nil)
+}
+
+// isErrSend: a send on a channel of errors (how goroutine bodies report a failure to whoever waits for them)
+func isErrSend(in ssa.Instruction) bool {
+	sd, ok := in.(*ssa.Send)
+	if !ok {
+		return false
+	}
+	ch, ok := sd.Chan.Type().Underlying().(*types.Chan)
+	return ok && types.Identical(ch.Elem(), types.Universe.Lookup("error").Type())
+}
+
+func isReporter(fn *ssa.Function) bool {
+	if engine.ErrResultIndex(fn.Signature) >= 0 || fn.Parent() == nil {
+		return false
+	}
+	for _, b := range fn.Blocks {
+		for _, in := range b.Instrs {
+			if isErrSend(in) {
+				return true
+			}
+		}
+	}
+	return false
+}
+
+// droppedErrorsInReporter: fn is a function literal without an error result that reports failures by sending
+// on an error channel; lists the calls whose error lets it return without such a send.
+func droppedErrorsInReporter(c *Check, fn *ssa.Function, extraExempt func(name string) bool) []droppedErr {
+	if engine.ErrResultIndex(fn.Signature) >= 0 || fn.Parent() == nil {
+		return nil
+	}
+	reports := false
+	for _, b := range fn.Blocks {
+		for _, in := range b.Instrs {
+			if isErrSend(in) {
+				reports = true
+			}
+		}
+	}
+	if !reports {
+		return nil
+	}
+	anyReturn := func(in ssa.Instruction) bool { _, ok := in.(*ssa.Return); return ok && in.Parent() == fn }
+	return droppedErrorsTo(c, fn, extraExempt, anyReturn, isErrSend)
+}
+
+func droppedErrorsTo(c *Check, fn *ssa.Function, extraExempt func(name string) bool, target func(ssa.Instruction) bool, sink func(ssa.Instruction) bool) []droppedErr {
 	var out []droppedErr
 	if classifierExempt(c, fn) {
 		return nil
@@ -103,7 +153,7 @@ func droppedErrors(c *Check, fn *ssa.Function, extraExempt func(name string) boo
 			continue
 		}
 		fwd := errForwarders(s)
-		isFwd := func(in ssa.Instruction) bool { return fwd[in] }
+		isFwd := func(in ssa.Instruction) bool { return fwd[in] || (sink != nil && sink(in)) }
 		nilEdges := nilEdgesIncluding(s)
 		eofEdges := engine.CutEdgesWhere(func(a engine.Atom) bool {
 			// `err == io.EOF` is end-of-stream, not a failure
@@ -144,12 +194,12 @@ func droppedErrors(c *Check, fn *ssa.Function, extraExempt func(name string) boo
 			return false
 		})
 		cut := func(b *ssa.BasicBlock, i int) bool { return nilEdges(b, i) || eofEdges(b, i) || classifiedAway(b, i) }
-		if ok, at := engine.PathExists(fn, s, successReturn, engine.PathQuery{CutEdge: cut, CutInstr: isFwd}); ok {
+		if ok, at := engine.PathExists(fn, s, target, engine.PathQuery{CutEdge: cut, CutInstr: isFwd}); ok {
 			out = append(out, droppedErr{s, at})
 		} else if engine.InLoop(s) {
 			// overwritten by the next iteration before anybody looked at it
 			if again, _ := engine.PathExists(fn, s, engine.IsInstr(s), engine.PathQuery{CutEdge: cut, CutInstr: isFwd}); again {
-				if ok2, at2 := engine.PathExists(fn, s, successReturn, engine.PathQuery{}); ok2 {
+				if ok2, at2 := engine.PathExists(fn, s, target, engine.PathQuery{}); ok2 {
 					out = append(out, droppedErr{s, at2})
 				}
 			}
@@ -429,6 +479,19 @@ func requireNoDroppedErrors(c *Check, rule string, fns []*ssa.Function, extraExe
 		}
 		seen[fn] = true
 		if engine.ErrResultIndex(fn.Signature) < 0 {
+			// a goroutine body that reports through an error channel
+			if !isReporter(fn) {
+				continue
+			}
+			key := "no-dropped-error/" + c.P.FuncName(fn)
+			d := droppedErrorsInReporter(c, fn, extraExempt)
+			if len(d) == 0 {
+				c.OK(rule, key, "every failing call in this goroutine body leads to a send on the error channel before the body returns", c.P.Pos(fn.Pos()))
+			}
+			for _, x := range d {
+				c.Bad(rule, key+"/"+strings.ReplaceAll(engine.CalleeName(x.Call), "grog/internal/", ""),
+					"when this call fails the goroutine body can return without sending an error on the channel its other failures are reported on ("+c.P.InstrPos(x.At)+"): whoever waits for the goroutines sees success although the work was not done", c.P.InstrPos(x.Call))
+			}
 			continue
 		}
 		d := droppedErrors(c, fn, extraExempt)
